@@ -12,8 +12,9 @@
    NOT proved (validated by (C) on every generated case instead): the winding-number clause for all points -- that the
    corner insertion of ExecuteInternal and the splitting / rejoining of TidyEdges produce rings whose summed winding number
    is the input's inside the rectangle.  The one-unit accuracy of computed intersection points is proved for |coordinates| <= 2^25
-   (C08_isect_on_rect) and validated beyond; "within one unit" is all that holds: the check reports the cases in which the
-   truncated intersection point is one unit off its side and the winding clause fails because of it (key clip.ip-off-side).
+   (C08_isect_on_rect) and validated beyond.  (GetSegmentIntersection projects the truncated point of GetSegmentIntersectPt onto
+   the side since triage/C08-ip-onto-side.patch; before, it could be one unit off its side and the winding clause failed along
+   that side -- the check still recognises that failure mode, key clip.ip-off-side.)
 
    Vocabulary (proofs/RectClipLeaf.v, proofs/RectLines.v, proofs/RectClipCheck.v):
      on_side r p loc      p lies on the closed side of r that the code loc names (Left: x = left /\ top <= y <= bottom, ...)
@@ -22,8 +23,8 @@
      in_rect r v          left <= x <= right /\ top <= y <= bottom;   within r s v: the same with every side moved out by s
      cseg_at path i a b   a, b are the end points of the input edge ending at path[i] (path[highI] -> path[0] for i = 0)
      tags                 SV i copy of path[i]; SC k rect_as_path_[k]; SI i returned (result true) by GetIntersection for the
-                          edge ending at path[i]; SX i the ip2 that ExecuteInternal adds although the second GetIntersection
-                          call of a pass-through returned false (the code ignores that result) *)
+                          edge ending at path[i]; SX is never produced (it tagged the ip2 that ExecuteInternal used to add
+                          although the second GetIntersection call of a pass-through had returned false) *)
 From Clip Require Import base.Geom base.FloatModel base.Winding base.Dist base.CSem gen.Gen_core gen.Gen_rect
   model.RectLeaf model.RectLines model.RectClip model.RectClipCheck.
 From Clip Require Import proofs.RectLines proofs.RectClip proofs.RectClipCheck.
@@ -75,9 +76,9 @@ Print Assumptions C08_intersection_names_side.
 
 (* GetSegmentIntersection against an axis-parallel side p3-p4 for |coordinates| <= 2^25 (small_pt), where the four binary64
    cross products are exact: a true result is an end point lying EXACTLY on both closed segments (on_seg: collinear and inside
-   the bounding box), or the segments cross properly and the point is the one GetSegmentIntersectPt computes -- as it is (the
-   code as of this writing) or projected onto the side (project_on_side: perpendicular coordinate := the side's, the other
-   clamped to the side's extent; the repair proposed in triage/C08-ip-onto-side.patch).  The proof accepts either form.
+   the bounding box), or the segments cross properly and the point is the one GetSegmentIntersectPt computes -- projected onto the
+   side (project_on_side: perpendicular coordinate := the side's, the other clamped to the side's extent; as it was computed in
+   the code before triage/C08-ip-onto-side.patch).  The proof accepts either form of the translated definition.
    (How far q0 is from the side: next theorem.) *)
 Theorem C08_isect_on_rect_cases :
   forall p1 p2 p3 p4 ip q,
@@ -95,8 +96,7 @@ Print Assumptions C08_isect_on_rect_cases.
    the other one within [min - 1, max + 1] of the side's extent.  Uses the accuracy theorem for GetSegmentIntersectPt proved for
    C18 (proofs/Core_isect_acc.v, binary64 error analysis with Flocq: within 1 + 2^-20 per axis of the exact crossing, whose
    perpendicular coordinate is an integer here).  The bound 2^25 is the one under which det, the numerator of t and the four
-   cross products are exact; beyond it the clause is validated only (and does fail: check key clip.ip-off-side shows points
-   one unit off at all magnitudes, never more). *)
+   cross products are exact; beyond it the clause is validated only. *)
 Theorem C08_isect_on_rect :
   forall p1 p2 p3 p4 ip q,
   RectFloat.small_pt p1 -> RectFloat.small_pt p2 -> RectFloat.small_pt p3 -> RectFloat.small_pt p4 ->
@@ -131,33 +131,27 @@ Theorem C08_vertices :
   | SC k => nth_error (rect_as_path r) k = Some v
   | SI i => exists a b, cseg_at path i a b /\ exists loc ip0 loc',
               GetIntersection (RPath r) b a loc ip0 = (true, loc', v) \/ GetIntersection (RPath r) a b loc ip0 = (true, loc', v)
-  | SX i => exists a b, cseg_at path i a b /\ exists loc ip0 loc', GetIntersection (RPath r) a b loc ip0 = (false, loc', v)
+  | SX _ => False
   end.
 Proof. exact rect_clip_vertices. Qed.
 Print Assumptions C08_vertices.
 
-(* the statement of the design ("an input vertex not outside, a rectangle corner, or a GetIntersection result") holds for
-   every result without a point tagged SX ... *)
-Theorem C08_vertices_no_stale :
+(* the statement of the design, on the untagged result: "an input vertex not outside, a rectangle corner, or a GetIntersection
+   result".  History: before the repair of the pass-through branch of ExecuteInternal (a pass-through now needs BOTH
+   GetIntersection calls to succeed; triage/C08-stale-ip2.patch) this was false of the faithful model -- for
+   Rect64(32769433,279593455,32769434,279593456) and the triangle (109421516,656086942) (-25760342,-7888347) (32769354,279593454)
+   the result contained Point64() = (0,0); that input is kept as corpus case and as Example stale_repaired (result: nothing). *)
+Theorem C08_vertices_untagged :
   forall r path out,
   rect_i64 r -> rect_clip_t r path = Ok out ->
-  (forall piece v i, In piece out -> ~ In (v, SX i) piece) ->
   forall piece v, In piece (untag out) -> In v piece ->
     (In v path /\ in_rect r v) \/ In v (rect_as_path r)
     \/ exists a b loc ip0 loc', In a path /\ In b path /\ GetIntersection (RPath r) a b loc ip0 = (true, loc', v).
-Proof. exact rect_clip_vertices_no_stale. Qed.
-Print Assumptions C08_vertices_no_stale.
+Proof. exact rect_clip_vertices_untagged. Qed.
+Print Assumptions C08_vertices_untagged.
 
-(* ... and is FALSE of the faithful model without that hypothesis: for this rectangle and triangle (|coordinates| < 2^30) the
-   result contains the default-constructed Point64() = (0,0), which is neither an input vertex nor a corner and lies far
-   outside the rectangle (replayed on the real code by the check: key clip.stale-ip2) *)
-Theorem C08_vertices_stale_refuted :
-  exists out piece i,
-    rect_is_empty stale_rect = false /\ rect_i64 stale_rect /\ rect_clip_t stale_rect stale_path = Ok out /\ In piece out
-    /\ In ((0, 0), SX i) piece /\ ~ within stale_rect 1 (0, 0)
-    /\ ~ In (0, 0) stale_path /\ ~ In (0, 0) (rect_as_path stale_rect).
-Proof. exact stale_refuted. Qed.
-Print Assumptions C08_vertices_stale_refuted.
+(* with C08_intersection_names_side and C08_isect_on_rect: for |coordinates| <= 2^25 every vertex of the result lies in the
+   rectangle grown by one unit -- in_rect for input vertices and corners, near a side for intersection points *)
 
 (* the loops `do { AddCorner(prev, cw); } while (prev != loc)` and `do { start_locs_.push_back(prev); .. } while (prev != loc)`:
    they end (the model's fuel of 8 steps suffices) whenever the target location is a side, which it is whenever it comes out of a
@@ -217,19 +211,19 @@ Print Assumptions C08_sample_check_sound.
 (* PARTIAL: everything the theorems above give about one call RectClip(r, {path}) of the model.  Missing with respect to the
    property: the winding-number / orientation / nothing-outside clauses for all points (validated at sample points by the verified
    checker above on every generated case), and the within-one-unit clauses for the points tagged SI beyond |coordinates| 2^25
-   (proved up to there by C08_isect_on_rect + C08_intersection_names_side, validated beyond; refuted for SX). *)
+   (proved up to there by C08_isect_on_rect + C08_intersection_names_side, validated beyond). *)
 Theorem C08_rectclip_partial :
   forall r path out,
   rect_is_empty r = false -> rect_i64 r -> (forall v, In v path -> pt_i64 v) ->
   rect_clip_t r path = Ok out ->
-  (* every vertex of the result has one of the four provenances *)
+  (* every vertex of the result has one of the three provenances *)
   (forall piece v s, In piece out -> In (v, s) piece ->
      match s with
      | SV i => nth_error path i = Some v /\ in_rect r v
      | SC k => nth_error (rect_as_path r) k = Some v
      | SI i => exists a b, cseg_at path i a b /\ exists loc ip0 loc',
                  GetIntersection (RPath r) b a loc ip0 = (true, loc', v) \/ GetIntersection (RPath r) a b loc ip0 = (true, loc', v)
-     | SX i => exists a b, cseg_at path i a b /\ exists loc ip0 loc', GetIntersection (RPath r) a b loc ip0 = (false, loc', v)
+     | SX _ => False
      end)
   (* input vertices and corners are inside the rectangle exactly *)
   /\ (forall piece v s, In piece out -> In (v, s) piece -> match s with SV _ | SC _ => in_rect r v | _ => True end)
